@@ -209,7 +209,7 @@ class ExprMixin:
         # two rounds: an instance may itself be (a conjunction / implication ending in) a universally
         # quantified formula - a class invariant of another object stated as `forall i. ... forall x, j. ...`
         # (facts are scanned too: `application ==> body` of an unfolded Boolean specification function)
-        todo = list(st.pc) + [f for f in st.facts if z3.is_implies(f) and _has_quantifier(f)]
+        todo = list(st.pc) + [f for f in st.facts if (z3.is_implies(f) or z3.is_quantifier(f)) and _has_quantifier(f)]
         sk_ids = {c.get_id() for c in skolems}
         nested = []        # instances at Skolem constants that are quantified themselves: second round
         for round_ in (0, 1):
